@@ -641,6 +641,30 @@ def utility_counting(rep, rule, mod):
               construct='populate', node=pop)
 
     uc = find_def(mod, '_UnhashableComponentCounter')
+    # the strategy switch carries every (component, count) pair over unchanged
+    ini = methods_of(uc).get('__init__')
+    probs = []
+    if ini is None:
+        probs.append('no constructor')
+    else:
+        src = [a.arg for a in ini.args.args][1]
+        want = ('[c0 for c0 in %s.items()]' % src, 'list(%s.items())' % src)
+        ss_ = normal(summaries(ini))
+        for ps in ss_:
+            sts = [e for e in ps.stores() if nt(e.r) == 'self._data']
+            if len(sts) != 1 or nt(sts[0].val) not in want:
+                probs.append('self._data = %s (required: every (component, count) of the '
+                             'hashable table)' % [nt(e.val)[:50] for e in sts])
+            extra = [repr(e)[:60] for e in ps.events
+                     if e.kind in ('aug', 'del') or (e.kind == 'store' and e not in sts)]
+            if extra:
+                probs.append('the counts are rebuilt instead of carried over: %s' % extra[:1])
+        if not ss_:
+            probs.append('constructor has no normal path')
+    rep.check(rule, '_UnhashableComponentCounter.__init__', not probs,
+              'the unhashable-component table starts as a copy of all (component, '
+              'count) pairs of the table it replaces' if not probs else
+              {'problems': sorted(set(probs))[:3]}, construct='carry-over', node=uc)
     ops = {}
     for name, m in methods_of(uc).items():
         if name in ('__getitem__', '__setitem__', '__delitem__'):
